@@ -24,7 +24,7 @@ STUBS = ["asyncio.open_connection -> FakeNet (script: refuse / accept after late
          "loop -> VLoop (virtual time)"]
 OUTSIDE = ["scripts deeper than the stated depth", "more than one user send during the script", "faults raised by write() itself",
            "console bytes after it closed the connection (transport contract)"]
-ASSUMPTIONS = ["'bounded time' is checked against a horizon of 40 s of virtual time after the last script step (not tied to the 2 s retry constant)",
+ASSUMPTIONS = ["'unencodable' also covers an encoder that raises another exception type (KeyError from an ability report with an empty support mapping)", "'bounded time' is checked against a horizon of 40 s of virtual time after the last script step (not tied to the 2 s retry constant)",
                "'unencodable' = a message whose size() succeeds and whose encode() raises (AT4 GroupControlMessage(group_number=300))"]
 
 CONNECT_ALPHABET = ("refuse", "accept")
@@ -33,7 +33,7 @@ INJECT_ALPHABET = ("nop", "eof", "reset", "unreach", "garbage", "badcrc", "trunc
 
 
 def bounds(tier):
-    return {"script_depth": {"quick": {"full": 3, "wfault": 4, "rx": 3, "subs": 3}, "thorough": {"full": 4, "wfault": 6, "rx": 5, "subs": 5}}[tier],
+    return {"script_depth": {"quick": {"full": 3, "wfault": 4, "rx": 3, "subs": 3, "enc": 3}, "thorough": {"full": 4, "wfault": 6, "rx": 5, "subs": 5, "enc": 5}}[tier],
             "connect_alphabet": CONNECT_ALPHABET, "inject_alphabets": ALPHABETS,
             "user_send_instant": "[0,4] symbolic", "connect_latency": "(0,3] symbolic", "horizon_after_script_s": 40}
 
@@ -44,12 +44,13 @@ ALPHABETS = {
     "rx": ("nop", "eof", "garbage", "badcrc", "truncated", "undecodable", "subraise"),
     "subs": ("nop", "eof", "reset", "werr", "subraise", "connsubraise"),
     "turns": ("eof", "reset", "unreach", "garbage", "truncated", "werr", "badmsg", "subraise", "connsubraise"),
+    "enc": ("nop", "eof", "werr", "badmsg", "badmsg2"),
 }
 
 
 def instances(tier):
     out = []
-    plan = {"quick": {"full": 3, "wfault": 4, "rx": 3, "subs": 3}, "thorough": {"full": 4, "wfault": 6, "rx": 5, "subs": 5}}[tier]
+    plan = {"quick": {"full": 3, "wfault": 4, "rx": 3, "subs": 3, "enc": 3}, "thorough": {"full": 4, "wfault": 6, "rx": 5, "subs": 5, "enc": 5}}[tier]
     for g in (4, 5):
         for alph, d in plan.items():
             lo = 1 if alph == "full" else d
@@ -74,6 +75,17 @@ def _unencodable(g):
     zc = g.m("xC020_zone_ctrl")
     C = g.m("xC0_ctrl_status").ControlStatusMessage
     return C(zc.ZoneControlMessage([zc.ZoneControlData(300, zc.ZonePowerControl.TURN_ON, None)]))
+
+
+def _unencodable_other(g):
+    """size() succeeds, encode() raises an exception that is neither ValueError nor struct.error (an ability report with an
+    empty mode-support mapping: KeyError)."""
+    ab = g.m("x1FFF11_ac_ability")
+    if g.n == 4:
+        rec = ab.AcAbility(0, "x", {}, {}, 16, 30, None, 0, 1)
+    else:
+        rec = ab.AcAbility(0, "x", 0, 1, {}, {}, 16, 30, 17, 31)
+    return g.ext.ExtendedMessage(ab.AcAbilityMessage([rec]))
 
 
 def _outage(ctx, p):
@@ -210,6 +222,8 @@ def run(ctx, p):
                 a = choose(ALPHABETS[p.get("alphabet", "full")])
                 if a == "badmsg":
                     rig.spawn(user_send(_unencodable(g), S.RetryPolicy(1, 5.0)))
+                elif a == "badmsg2":
+                    rig.spawn(user_send(_unencodable_other(g), S.RetryPolicy(1, 5.0)))
                 elif a == "werr":
                     fail_drain["on"] = True
                 elif a == "connsubraise":
